@@ -657,6 +657,31 @@ func (c *Check) notificationFromErr(rule string) {
 				multi = true
 			}
 		})
+		if !single && multi {
+			// the children gathered by a helper: it asks for both kinds, and the
+			// single child is put into the list it returns
+			var one, many bool
+			for _, g := range deepFuncs(walk) {
+				ownInstrs(g, func(in ssa.Instruction) {
+					inv, ok := in.(*ssa.Call)
+					if !ok || !inv.Call.IsInvoke() || inv.Call.Method.Name() != "Unwrap" {
+						return
+					}
+					if _, isSlice := inv.Type().Underlying().(*types.Slice); isSlice {
+						many = true
+						return
+					}
+					for _, r := range *inv.Referrers() {
+						if st, isS := r.(*ssa.Store); isS {
+							if _, isIA := st.Addr.(*ssa.IndexAddr); isIA {
+								one = true
+							}
+						}
+					}
+				})
+			}
+			single = one && many
+		}
 		c.require(single && multi, rule, p.Name(walk), "descends into wrapped and joined errors", p.Pos(walk.Pos()),
 			"the walker calls itself on x.Unwrap() and, for every element, on x.Unwrap() []error")
 		// after a *Notification is found nothing below it is visited
